@@ -548,6 +548,10 @@ theorem recursive_assign (self other : RecCell α) (v : α) (h : other.get = .ok
   · rfl
 /-- moving hands the object over; the moved-from wrapper must not be read any more -/
 theorem recursive_move (r : RecCell α) : r.move.1.get = r.get ∧ r.move.2.get = .error .emptyDeref := ⟨rfl, rfl⟩
+/-- `*p` of a unique_ptr is the object it owns; moving and `release_ownership` hand exactly that object on and leave null -/
+theorem unique_ptr_get_exposes (mem : Nat → α) (p : Nat) :
+    UPtr.get mem ⟨some p⟩ = .ok (mem p) ∧ (UPtr.move ⟨some p⟩).1.get mem = .ok (mem p) ∧
+    (UPtr.move ⟨some p⟩).2.get mem = .error .emptyDeref ∧ UPtr.release ⟨some p⟩ = (some p, ⟨none⟩) := ⟨rfl, rfl, rfl, rfl⟩
 /-- `*p` of a shared_ptr is the object at the stored pointer — the same for every owner -/
 theorem shared_ptr_get_exposes (mem : Nat → α) (p o₁ o₂ : Nat) : SPtr.get mem ⟨p, o₁⟩ = SPtr.get mem ⟨p, o₂⟩ := rfl
 
